@@ -28,6 +28,14 @@ func regionOf(e *Effect) (region, bool) {
 		l := e.Loops[0]
 		idx := normInt(e.Idx)
 		co, other := idx.coefOf(l.K)
+		if !other && co.Cmp(big.NewInt(-1)) == 0 {
+			// a descending walk: the order of the stores cannot matter when every store writes the same
+			// constant (a zero fill); positions idx(k), k = trip-1 .. 0
+			if z, ok := normIntConst(valTerm(e.Val)); ok && z == 0 && l.TripPoly != nil {
+				return region{stor: e.Stor, start: idx.Add(normInt(l.K)).Sub(l.TripPoly).AddInt(1), count: l.TripPoly, zero: true, eff: e}, true
+			}
+			return region{}, false
+		}
 		if other || co.Cmp(bigOne) != 0 {
 			return region{}, false
 		}
@@ -131,8 +139,8 @@ func checkC03(c *Checker) {
 		// final header
 		hdr, _ := o.St.mem[objByName(o, dst.obj())].(StructV)
 		var data SliceV
-		if len(hdr.F) >= 3 {
-			data, _ = hdr.F[fi.data].(SliceV)
+		if len(hdr.F) >= 2 {
+			data, _ = fi.at(hdr, fi.data).(SliceV)
 		}
 		grows := effectsOf(o, EGrow)
 		var target *Storage
@@ -164,7 +172,7 @@ func checkC03(c *Checker) {
 				}
 				regs = append(regs, r)
 			case EStoreField, ESetCap:
-				if e.Obj.Name != dst.obj() || len(e.Path) != 1 || e.Path[0] != fi.data {
+				if e.Obj.Name != dst.obj() || !pathEq(e.Path, fi.data) {
 					bad++
 					badDesc = append(badDesc, e)
 				}
@@ -217,18 +225,36 @@ func checkC03(c *Checker) {
 			w1 := base.Sub(polyAtom(canon(&Term{Op: OpRem, Typ: intT, Args: []*Term{bt, dst.ch()}})))
 			w2 := polyAtom(canon(&Term{Op: OpDiv, Typ: intT, Args: []*Term{bt, dst.ch()}})).Mul(normInt(dst.ch()))
 			capDetail = "final capacity " + pretty(canon(data.Cap))
-			switch {
-			case got.Equal(w1) || got.Equal(w2):
-				if !fa.impliesGE0(got.Sub(newLen)) && floorMultipleGE0(fa, got.Sub(newLen), dst, src) == "" {
-					okCap = false
-					capDetail += " is not implied to be at least the new length " + newLen.String()
+			// a capacity decided by a pure helper arrives as a conditional term: every feasible case is judged
+			nCases := 0
+			for _, cs := range casesOf(canon(data.Cap), fa, 0) {
+				if alignedInfeasible(cs.facts, dst, src) != "" {
+					continue // excluded by frame alignment, like the path of the D9 guard
 				}
-			case got.Equal(base):
-				okCap = false
-				capDetail = "capacity " + pretty(canon(data.Cap)) + " is not trimmed to a whole number of frames"
-			default:
-				okCap = false
-				capDetail += " is not cap - cap mod channels of the storage capacity " + base.String()
+				nCases++
+				got = normInt(cs.val)
+				switch {
+				case got.Equal(w1) || got.Equal(w2):
+					if !cs.facts.impliesGE0(got.Sub(newLen)) && floorMultipleGE0(cs.facts, got.Sub(newLen), dst, src) == "" {
+						okCap = false
+						capDetail += " is not implied to be at least the new length " + newLen.String()
+					}
+				case got.Equal(base) && cs.facts.eval(Cond{Kind: CEQ0, P: normSign(base.Sub(w1))}) == Yes:
+					// untouched because it is already a whole number of frames on this path
+					if !cs.facts.impliesGE0(got.Sub(newLen)) {
+						okCap = false
+						capDetail += " is not implied to be at least the new length " + newLen.String()
+					}
+				case got.Equal(base):
+					okCap = false
+					capDetail = "capacity " + pretty(cs.val) + " is not trimmed to a whole number of frames"
+				default:
+					okCap = false
+					capDetail += " is not cap - cap mod channels of the storage capacity " + base.String()
+				}
+			}
+			if nCases == 0 {
+				okCap, capDetail = false, "no feasible case for the final capacity"
 			}
 		}
 		c.expect(okCap, "C03-R4", inst, c.pos(o.Pos), capDetail, "capacity is not a whole number of frames covering the length: "+capDetail)
@@ -332,6 +358,32 @@ func factsWith(f, g *Facts) *Facts {
 		for _, c := range g.list {
 			out.add(c)
 		}
+	}
+	return out
+}
+
+type termCase struct {
+	val   *Term
+	facts *Facts
+}
+
+// casesOf splits a conditional term into its cases, each with the condition added to the facts; cases whose
+// condition contradicts the facts are dropped.
+func casesOf(t *Term, f *Facts, depth int) []termCase {
+	if t.Op != OpIte || depth > 6 {
+		return []termCase{{t, f}}
+	}
+	c := condOf(t.Args[0], false)
+	var out []termCase
+	if f.eval(c) != No {
+		g := f.clone()
+		g.add(c)
+		out = append(out, casesOf(t.Args[1], g, depth+1)...)
+	}
+	if f.eval(c) != Yes {
+		g := f.clone()
+		g.add(c.Not())
+		out = append(out, casesOf(t.Args[2], g, depth+1)...)
 	}
 	return out
 }
